@@ -85,7 +85,9 @@ pub fn alphabet(thorough: bool) -> Vec<&'static str> {
         "UPDATE t SET v = 2 WHERE id = 1",
         "UPDATE t SET v = v + 1",
         "UPDATE t SET s = 'abz' WHERE id = 2",
-        "UPDATE t SET v = NULL, d = 1 WHERE id = 2",
+        "UPDATE t SET v = NULL WHERE id = 2",
+        // NULL -> value on the row that holds NULL from the start (with the statement above: one of two NULL rows)
+        "UPDATE t SET v = 7 WHERE id = 4",
         "DELETE FROM t WHERE id = 1",
         "DELETE FROM t WHERE v > 1",
         "DELETE FROM t",
@@ -818,7 +820,9 @@ pub fn run(tier: &str) -> i32 {
     let mut rep = Report::new("C02", tier, "model_checking");
     vibesql_types::verif::reset();
     let thorough = tier == "thorough";
-    let shapes: Vec<Shape> = if thorough { all_shapes() } else { all_shapes().into_iter().take(5).collect() };
+    // quick: the first five shapes and the UNIQUE one (a unique index keeps one entry per key — except for
+    // NULL, which many rows may share)
+    let shapes: Vec<Shape> = if thorough { all_shapes() } else { all_shapes().into_iter().enumerate().filter(|(i, s)| *i < 5 || s.key == "uniq(v)").map(|(_, s)| s).collect() };
     let depth = if thorough { 3 } else { 2 };
     let alpha: Vec<String> = alphabet(thorough).into_iter().map(|s| s.to_string()).collect();
     // groups of shapes that share a menu
